@@ -26,7 +26,7 @@ from pathlib import Path
 from vcore import REPO  # noqa: F401  (sys.path side effect: /repo or PYXFORM_REPO first)
 
 SUPPORTED = ("survey", "choices", "settings", "external_choices", "entities", "osm")
-NBSP = " "
+NBSP = "\u00a0"
 
 # --------------------------------------------------------------------------- canonical dict
 
@@ -94,15 +94,19 @@ def md_ok_cell(c: str) -> bool:
     return "\n" not in c and c == c.strip()
 
 
-def to_md(aw: dict, pad=lambda i: " ") -> str:
-    """`| name |` / `| | h1 | h2 |` / `| | c1 | c2 |`, one line per row, '\n' separated."""
+def md_line(cells: list[str]) -> str:
+    return "|" + "|".join(" " + md_escape(c) + " " for c in cells) + "|"
+
+
+def to_md(aw: dict) -> str:
+    """`| name |` / `|  | h1 | h2 |` / `|  | c1 | c2 |`, lines joined by '\n' (= Backends.renderMd)."""
     lines = []
     for s in aw["sheets"]:
-        lines.append("| " + md_escape(s["name"]) + " |")
-        lines.append("| | " + " | ".join(md_escape(c) for c in s["header"]) + " |")
+        lines.append(md_line([s["name"]]))
+        lines.append(md_line(["", *s["header"]]))
         for r in s["rows"]:
-            lines.append("| | " + " | ".join(md_escape(c) for c in r) + " |")
-    return "\n".join(lines) + "\n"
+            lines.append(md_line(["", *r]))
+    return "\n".join(lines)
 
 
 def csv_rows(aw: dict) -> list[list[str]]:
